@@ -58,6 +58,24 @@ def run_one(chk, sseed, nrepos=1, directed=None):
                 kind = "evolve"
                 versions.append([common.evolve(rng, r) for r in versions[-1]])
             kinds.append(kind)
+        if directed == "removal-only":
+            # the last update only withdraws packages: the final run transfers no pool file at all, and still has to clean
+            nv = copy.deepcopy(versions[-1])
+            removed = 0
+            for r in nv:
+                for cs in r["codenames"].values():
+                    cs["date"] = cs.get("date", 1_000_000_000) + 86400
+                    for cp in cs["components"].values():
+                        for arch, pkgs in cp.get("binaries", {}).items():
+                            if len(pkgs) > 1:
+                                pkgs.pop(rng.randrange(len(pkgs)))
+                                removed += 1
+                        if cp.get("sources") and len(cp["sources"]) > 1:
+                            cp["sources"].pop()
+                            removed += 1
+            versions.append(nv)
+            kinds.append("removal-only")
+            chk.count("removal_only_histories_with_removals", 1 if removed else 0)
         final = versions[-1]
         stores_f = w.stores(final)
         if any(common.has_s3(r, w.cfgs[r["url"]], stores_f[r["url"]]) for r in final):
@@ -192,6 +210,8 @@ def run(chk, tier, rng):
     # directed history for DESIGN S13 (kill between the last write and the utime of a pool file): everything but that
     # file's mtime must still converge
     run_one(chk, "C08-directed-S13", directed="kill-before-pool-utime")
+    for i in range(4 if tier == "quick" else 40):
+        run_one(chk, f"C08-removal-{chk.seed}-{i}", directed="removal-only")
     for i in range(n):
         run_one(chk, f"C08-{chk.seed}-{i}", nrepos=2 if i % 6 == 5 else 1)
     chk.assumptions += ["S1: immutable pool paths", "S4: wipe protection disabled (wipe_*_ratio 0)", "S3 worlds skipped",
